@@ -9,7 +9,7 @@ def build(variant='plain'):
     return vbuild.link('vdriver', objs, variant)
 
 def run(binary, workdir, nl_text=None, stub='m', args=('-AMPL',), script=None, env_opts=None, col=None, row=None,
-        timeout=20, extra_env=None, nl_bytes=None):
+        timeout=20, extra_env=None, nl_bytes=None, pre=()):
     """One driver run in its own directory.  Returns dict(rc, out, err, sol (text or None), dump (dict or None))."""
     os.makedirs(workdir, exist_ok=True)
     stubp = os.path.join(workdir, stub)
@@ -34,7 +34,7 @@ def run(binary, workdir, nl_text=None, stub='m', args=('-AMPL',), script=None, e
     # (the run is deterministic; on a loaded machine a 50 ms run has been seen to exceed 20 s)
     for attempt, tmo in enumerate((timeout, timeout * 6)):
         try:
-            p = subprocess.run([binary, stubp] + list(args), capture_output=True, env=env, timeout=tmo, cwd=workdir)
+            p = subprocess.run([binary] + list(pre) + [stubp] + list(args), capture_output=True, env=env, timeout=tmo, cwd=workdir)
             rc, out, err = p.returncode, p.stdout.decode(errors='replace'), p.stderr.decode(errors='replace')
             break
         except subprocess.TimeoutExpired as e:
